@@ -6,7 +6,7 @@ import ast
 from ..cfg import ENTRY, EXIT, RAISE, reaching_defs
 from ..common import calls_named, dotted, kw, loc, norm, stmt_of
 from ..model import AnalysisError, own_nodes
-from .util import anchor_func, assigned_name, build_cfg, facts, switch_assumptions
+from .util import anchor_func, assigned_name, build_cfg, facts, is_none_transfer_arm, switch_assumptions
 from .c14 import is_none_value, tensor_grad_stores
 
 TENSOR = "mygrad.tensor_base.Tensor"
@@ -46,6 +46,8 @@ def r06_2(run):
     for fi, mod, st, t, val, kind in tensor_grad_stores(run):
         if fi is None or not is_none_value(val):
             continue
+        if is_none_transfer_arm(st):
+            continue  # `t._grad = f(src) if src is not None else None`: a transfer of the source's state, not a discard
         by_fn.setdefault(fi.qualname, (fi, []))[1].append((st, norm(t.value)))
     if len(by_fn) < 3:
         raise AnalysisError(f"expected >= 3 functions nulling Tensor._grad, found {len(by_fn)}")
